@@ -172,31 +172,26 @@ theorem routeMain_ok (cfg : Config) {x : Ctx} (h : Inv x.st) {p : Peer} (hp : p 
         have hc2 : ∀ (ps : List Peer) (r : Route), conns (updatePeer ps e.owner (fun q => { q with routes := q.routes ++ [r] })) = conns ps :=
           fun ps r => conns_updatePeer (fun _ => rfl)
         split
-        · next x' ok heq =>
-          have hx' : x' = (send _ _ _).1 := (congrArg Prod.fst heq).symm
-          split
-          · subst hx'
-            refine ⟨by simpa using h2, by simpa using hc2 _ _, [Obs.send e.owner _ _, Obs.timerArm _ _], by simp [send_out], ?_⟩
-            intro c j b hm
+        · refine ⟨by simpa using h2, by simpa using hc2 _ _, [Obs.send e.owner _ _, Obs.timerArm _ _], by simp [send_out], ?_⟩
+          intro c j b hm
+          simp only [List.mem_cons, List.not_mem_nil, or_false] at hm
+          rcases hm with hm | hm
+          · cases hm; exact he
+          · cases hm
+        · refine ⟨?_, ?_, [Obs.timerDestroy _, Obs.send e.owner _ _, Obs.timerArm _ _], by simp [send_out], ?_⟩
+          · have := h2.removeRoute e.owner (routedId originId x.st.uuid p.addrTok)
+            simpa using this
+          · simp only [emit_st, send_st]
+            show conns (Daemon.removeRoute _ _ _) = _
+            unfold Daemon.removeRoute
+            rw [conns_updatePeer (f := fun q => { q with routes := q.routes.filter (·.rid != routedId originId x.st.uuid p.addrTok) }) (fun _ => rfl)]
+            exact hc2 _ _
+          · intro c j b hm
             simp only [List.mem_cons, List.not_mem_nil, or_false] at hm
-            rcases hm with hm | hm
+            rcases hm with hm | hm | hm
+            · cases hm
             · cases hm; exact he
             · cases hm
-          · subst hx'
-            refine ⟨?_, ?_, [Obs.timerDestroy _, Obs.send e.owner _ _, Obs.timerArm _ _], by simp [send_out], ?_⟩
-            · have := h2.removeRoute e.owner (routedId originId x.st.uuid p.addrTok)
-              simpa using this
-            · simp only [emit_st, send_st]
-              show conns (Daemon.removeRoute _ _ _) = _
-              unfold Daemon.removeRoute
-              rw [conns_updatePeer (f := fun q => { q with routes := q.routes.filter (·.rid != routedId originId x.st.uuid p.addrTok) }) (fun _ => rfl)]
-              exact hc2 _ _
-            · intro c j b hm
-              simp only [List.mem_cons, List.not_mem_nil, or_false] at hm
-              rcases hm with hm | hm | hm
-              · cases hm
-              · cases hm; exact he
-              · cases hm
 
 theorem setOrCall_ok (cfg : Config) {x : Ctx} (h : Inv x.st) {p : Peer} (hp : p ∈ x.st.peers) (req : Json)
     (isState : Bool) : Ok x (setOrCall cfg x p req isState).1 := by
